@@ -42,6 +42,12 @@ From SocGen Require Import Kernels Tie ShadowGen.
 Import ListNotations.
 Open Scope Z_scope.
 
+(* every remaining `if b` whose condition is decided by the hypotheses (whatever comparison the source spells) *)
+Ltac settle_ifs :=
+  repeat match goal with
+         | |- context [if ?b then _ else _] => first [replace b with true by lia | replace b with false by lia]
+         end.
+
 (* ------------------------------------------------------------------ _Shadow.__init__ *)
 Definition valid_shadow_args (g ov : pyint) (nm : pystr) : bool :=
   is_str nm && (is_int g && (0 <=? zof g)) && (is_none ov || (is_int ov && (0 <=? zof ov))).
@@ -89,7 +95,10 @@ Theorem tie_shadow_add : forall s r,
                      (Z.max (sh_size s) (reg_size r)) (sh_chunks s)).
 Proof.
   intros s r. unfold gen_shadow_add, set_add, elems_add. destruct s as [nm g ov rs sz ch]. cbn.
-  destruct (rs_frozen rs); [destruct (set_mem _ _); reflexivity|]. cbn. reflexivity.
+  destruct (rs_frozen rs); [destruct (set_mem _ _); reflexivity|]. cbn.
+  unfold reg_size, reg_len, set_sh_size, set_sh_ranges. cbn [sh_name sh_granularity sh_overlaps sh_ranges sh_size sh_chunks].
+  match goal with |- Ok (mk_shadow _ _ _ _ ?x _) = Ok (mk_shadow _ _ _ _ ?y _) => assert (E : x = y) by lia; rewrite ?E end.
+  reflexivity.
 Qed.
 Print Assumptions tie_shadow_add.
 
@@ -204,12 +213,14 @@ Proof.
     - cbn [rng_of rstart rstop fst snd]. reflexivity.
     - intros a bal0 d0 Ha. cbn beta iota. rewrite tie_decode_address, (Hmem r Hr), (in_range_addrs r a Ha).
       cbn [andb bind]. rewrite Hsz. unfold cnt_of.
-      destruct (cg && _) eqn:Ec; [eexists; reflexivity|].
+      destruct (cg && (Z.of_nat (List.length (dd_get d0 (decode Sz r a))) >? v)) eqn:Ec; settle_ifs;
+        [eexists; reflexivity|].
       destruct cg; [rewrite dd_append_touch|]; reflexivity. }
   unfold dstate, ddict in *. rewrite E. cbn [bind]. rewrite Hcg in *.
   destruct (can_grow Sz regs && unbalanced Sz v regs) eqn:Eb; cbn [negb].
   - subst self. unfold set_sh_size. cbn [sh_name sh_granularity sh_overlaps sh_ranges sh_chunks].
-    rewrite (Z.mul_comm Sz 2). destruct (rec _); reflexivity.
+    match goal with |- context [rec (mk_shadow _ _ _ _ ?e _)] => assert (E2 : e = 2 * Sz) by lia; rewrite ?E2 end.
+    destruct (rec _); reflexivity.
   - rewrite (G eq_refl). subst self. unfold set_sh_ranges, set_sh_chunks, set_freeze.
     cbn [sh_name sh_granularity sh_overlaps sh_ranges sh_size sh_chunks rs_elems].
     match goal with |- context [py_for (chunk_dict Sz regs) ?b _] =>
@@ -439,7 +450,7 @@ Proof.
         cbn [app]. repeat rewrite <- app_assoc. reflexivity.
       - intros x [[m' wf] df] Hx. cbn beta iota. rewrite encode_offset_rng.
         rewrite (HmR x (chunks_of_registers _ _ _ _ _ _ Hin x Hx)). cbn [bind]. unfold r_reg_step.
-        destruct (_ =? _); cbn [bind app]; reflexivity. }
+        destruct (encode (mkreg x) o =? rstart x) eqn:Ec; settle_ifs; cbn [bind app]; reflexivity. }
   cbn [bind]. unfold skeleton. destruct (fold_left (r_chunk_step dw) _ _) as [m1 rf]. cbn [bind].
   match goal with |- context [py_for (chunks_of nmw gw Sw ?R) ?b ?i] =>
     rewrite (py_for_fold (chunks_of nmw gw Sw R) b (w_chunk_step dw)) end.
@@ -449,7 +460,8 @@ Proof.
       - unfold w_chunk_step. cbn [bind app]. repeat rewrite <- app_assoc. reflexivity.
       - intros x m' Hx. cbn beta iota. rewrite encode_offset_rng.
         rewrite (HmW x (chunks_of_registers _ _ _ _ _ _ Hin x Hx)). cbn [bind]. unfold w_reg_step.
-        destruct (_ =? _); cbn [bind app]; repeat rewrite <- app_assoc; reflexivity. }
+        destruct (encode (mkreg x) o =? rstop x - 1) eqn:Ec; settle_ifs; cbn [bind app]; repeat rewrite <- app_assoc;
+          reflexivity. }
   cbn [bind]. reflexivity.
 Qed.
 
@@ -518,3 +530,83 @@ Proof.
   - apply tie_prepare_frozen. reflexivity.
 Qed.
 Print Assumptions tie_elaborate_again.
+
+(* ------------------------------------------------------------------ the skeleton is the image of the sites *)
+Definition site_rcase (c : chunk) (s : site) : astmt :=
+  SCase (st_addr s) ((if st_strobe s then [SAdd "comb" (AEq (AElem (st_reg s) "r_stb") (APort "bus.r_stb"))] else [])
+                     ++ [SAdd "sync" (AEq (ch_r_en c) (APort "bus.r_stb"))]).
+Definition site_rfan (s : site) : aval := AElem (st_reg s) "r_stb".
+Definition site_rword (dw : Z) (s : site) : aval :=
+  AMux (AElem (st_reg s) "r_stb") (AWordSel (AElem (st_reg s) "r_data") (st_word s) dw) (AConst 0).
+Definition site_wstmts (dw : Z) (c : chunk) (s : site) : list astmt :=
+  (if st_strobe s then [SAdd "sync" (AEq (AElem (st_reg s) "w_stb") (AConst 0))] else [])
+  ++ [SCase (st_addr s) ((if st_strobe s then [SAdd "sync" (AEq (AElem (st_reg s) "w_stb") (APort "bus.w_stb"))] else [])
+                         ++ [SAdd "comb" (AEq (ch_w_en c) (APort "bus.w_stb"))]);
+      SAdd "comb" (AEq (AWordSel (AElem (st_reg s) "w_data") (st_word s) dw) (ch_data c))].
+
+Lemma r_regs_sites dw c o : forall rs m wf df,
+  fold_left (r_reg_step dw c o) rs (m, wf, df) =
+  let ss := sites_of rstart [(o, rs)] in
+  (m ++ map (site_rcase c) ss, wf ++ map site_rfan ss, df ++ map (site_rword dw) ss).
+Proof.
+  unfold sites_of. cbn [flat_map fst snd]. intros rs. rewrite app_nil_r.
+  induction rs as [|x rs IH]; intros m wf df; cbn [fold_left map]; [rewrite !app_nil_r; reflexivity|].
+  unfold r_reg_step at 2. rewrite IH. cbn zeta. rewrite <- !app_assoc. reflexivity.
+Qed.
+
+Lemma w_regs_sites dw c o : forall rs m,
+  fold_left (w_reg_step dw c o) rs m = m ++ flat_map (site_wstmts dw c) (sites_of (fun x => rstop x - 1) [(o, rs)]).
+Proof.
+  unfold sites_of. cbn [flat_map fst snd]. intros rs. rewrite app_nil_r.
+  induction rs as [|x rs IH]; intros m; cbn [fold_left map flat_map]; [rewrite app_nil_r; reflexivity|].
+  rewrite IH. unfold w_reg_step, site_wstmts. cbn [st_strobe st_reg st_addr st_word]. rewrite <- !app_assoc. reflexivity.
+Qed.
+
+(* the sites of all chunks of a prepared shadow are the model-side lists rsites / wsites *)
+Lemma chunks_of_dict nm g S regs :
+  map (fun p => (fst p, ch_registers (snd p))) (chunks_of nm g S regs) = chunk_dict S regs.
+Proof.
+  unfold chunks_of. rewrite map_map. cbn [fst snd]. unfold chunk_of0.
+  rewrite <- (map_id (chunk_dict S regs)) at 2. apply map_ext. intros [o l]. cbn [fst snd].
+  rewrite chunk_of_registers. reflexivity.
+Qed.
+
+Lemma sites_of_concat {A} f (h : A -> Z * list rng) (l : list A) :
+  flat_map (fun p => sites_of f [h p]) l = sites_of f (map h l).
+Proof.
+  unfold sites_of. induction l as [|p l IH]; [reflexivity|]. cbn [flat_map map app] in *. rewrite IH, app_nil_r. reflexivity.
+Qed.
+
+Theorem tie_sites : forall f nm g S regs,
+  flat_map (fun p => sites_of f [(fst p, ch_registers (snd p))]) (chunks_of nm g S regs) = sites_of f (chunk_dict S regs).
+Proof. intros f nm g S regs. rewrite sites_of_concat, chunks_of_dict. reflexivity. Qed.
+Print Assumptions tie_sites.
+
+(* per chunk: what the skeleton contains is a function of the chunk's signals and of its sites *)
+Theorem skeleton_read_chunk : forall dw st o c,
+  r_chunk_step dw st (o, c) =
+  let ss := sites_of rstart [(o, ch_registers c)] in
+  (fst st ++ [SAdd "sync" (AEq (ch_r_en c) (AConst 0));
+              SSwitch (APort "bus.addr") (map (site_rcase c) ss);
+              SAdd "comb" (AEq (ch_w_en c) (AOrReduce (map site_rfan ss)));
+              SIf (ch_w_en c) [SAdd "sync" (AEq (ch_data c) (AOrReduce (map (site_rword dw) ss)))]],
+   snd st ++ [AMux (ch_r_en c) (ch_data c) (AConst 0)]).
+Proof. intros dw [m rf] o c. unfold r_chunk_step. rewrite r_regs_sites. reflexivity. Qed.
+Print Assumptions skeleton_read_chunk.
+
+Theorem skeleton_write_chunk : forall dw m o c,
+  w_chunk_step dw m (o, c) =
+  m ++ [SSwitch (APort "bus.addr") (flat_map (site_wstmts dw c) (sites_of (fun x => rstop x - 1) [(o, ch_registers c)]));
+        SIf (ch_w_en c) [SAdd "sync" (AEq (ch_data c) (APort "bus.w_data"))]].
+Proof. intros dw m o c. unfold w_chunk_step. rewrite w_regs_sites. reflexivity. Qed.
+Print Assumptions skeleton_write_chunk.
+
+(* the model-side facts the statements above lean on (Proofs/ShadowTie.v), re-checked with every run *)
+Print Assumptions prepare_loops.
+Print Assumptions py_sorted_perm.
+Print Assumptions shadow_size_perm.
+Print Assumptions chunk_regs_filter.
+Print Assumptions wen_sites.
+Print Assumptions ren_sites.
+Print Assumptions rstb_sites.
+Print Assumptions wstb_sites.
